@@ -114,8 +114,20 @@ func (H) Gen(prop string, rng *rand.Rand, tier string) *core.Plan {
 	// log is collected by the minimum over three groups). 1 = its node is down for the whole run (the other follower
 	// must not be held up by it), 2 = alive and left alone apart from the transport faults (its log must be the same
 	// gap-free copy; histories without a leader tail loss, whose exemptions are kept per follower 2 only)
-	p.Cfg["third"] = []int{0, 0, 1, 2}[rng.Intn(4)]
-	if p.Cfg["third"] == 2 {
+	// 3 = like 2, but it JOINS later: the leader's partition is built for one follower; from the `join` operation on the
+	// write streams name it as a replica (BuildReplicaForLeader creates its consumer group on a log that holds messages,
+	// the handshake resets the newcomer to the leader's position) - in half of those plans the leader dies inside that
+	// creation (A = the yield point of the queue / page packages at which it dies) and recovers
+	p.Cfg["third"] = []int{0, 0, 1, 2, 3}[rng.Intn(5)]
+	if p.Cfg["third"] == 3 {
+		at := 1 + rng.Intn(len(p.Ops))
+		join := core.Op{K: "join"}
+		if rng.Intn(2) == 0 {
+			join.A = int64(1 + rng.Intn(40))
+		}
+		p.Ops = append(p.Ops[:at], append([]core.Op{{K: "put", A: int64(1 + rng.Intn(3)), B: int64(8 + rng.Intn(60))}, join}, p.Ops[at:]...)...)
+	}
+	if p.Cfg["third"] >= 2 {
 		ops := p.Ops[:0]
 		for _, op := range p.Ops {
 			if op.K == "snap_l" {
@@ -204,6 +216,8 @@ type cluster struct {
 	// ledger
 	written     map[int64][]byte // leader sequence -> bytes as appended (of the leader's current log history)
 	nextMsg     int64
+	joining     bool  // third == 3: the write streams name the second follower as a replica from now on
+	joined      bool  // ... and a BuildReplicaForLeader that named it has completed
 	logLost     bool  // a follower's log was lost or the leader's tail was cut at some point of the history
 	lostFrom    int64 // leader positions >= lostFrom were destroyed by a tail loss (exempt until re-established)
 	prevAck     int64
@@ -580,10 +594,15 @@ func (cl *cluster) startNode(id int) error {
 // openWriteStream: what the storage node's write handler does when a broker opens a write stream for the family.
 func (cl *cluster) openWriteStream(l *node) error {
 	replicas := []models.NodeID{leaderID, followerID}
-	if cl.third != 0 {
+	named := cl.third == 1 || cl.third == 2 || (cl.third == 3 && cl.joining)
+	if named {
 		replicas = append(replicas, thirdID)
 	}
-	return l.part.BuildReplicaForLeader(leaderID, replicas)
+	err := l.part.BuildReplicaForLeader(leaderID, replicas)
+	if err == nil && named {
+		cl.joined = true // from here on the second follower has to get what the leader holds
+	}
+	return err
 }
 
 func (cl *cluster) stopNode(id int, clean bool) {
@@ -743,7 +762,7 @@ func (cl *cluster) check(when string) {
 	c := cl.c
 	c.Oracle()
 	l := cl.nodes[leaderID]
-	if cl.third == 2 {
+	if cl.third >= 2 {
 		// the undisturbed second follower: no holes, and at every position the message the leader stored there
 		if tq := cl.logOf(thirdID); tq != nil {
 			q := tq.Queue()
@@ -850,7 +869,10 @@ func (H) Run(c *core.RunCtx) {
 	if cl.third == 1 {
 		sim.Fault("third-replica-down")
 	}
-	if cl.third == 2 {
+	if cl.third == 3 {
+		sim.Fault("third-replica-joins-later")
+	}
+	if cl.third >= 2 {
 		sim.Fault("third-replica-alive")
 		cl.live[thirdID] = true
 		if err := cl.startNode(thirdID); err != nil {
@@ -871,6 +893,7 @@ func (H) Run(c *core.RunCtx) {
 	hw := int64(-1)
 	tMeta := filepath.Join(partDir(filepath.Join(c.Dir, fmt.Sprintf("node%d", thirdID))), "meta", "0.bat")
 	tGroup := filepath.Join(partDir(cl.nodes[leaderID].dir), "cg", fmt.Sprint(thirdID), "0.bat")
+	lQMeta := filepath.Join(partDir(cl.nodes[leaderID].dir), "meta", "0.bat")
 	hw3, prevAck3 := int64(-1), int64(-1)
 	dbgPrev := -1
 	sim.OnStep = func() {
@@ -883,13 +906,19 @@ func (H) Run(c *core.RunCtx) {
 				}
 			}
 		}
-		if cl.third == 2 {
-			// the same rule for the second follower (its log is never lost, the leader's never cut)
+		if cl.third >= 2 {
+			// the same rule for the second follower (its log is never lost, the leader's never cut). Positions at or
+			// below the leader's queue-wide acknowledged position are released for everybody: the group of a follower
+			// that joins starts there without having anything
 			if app, _, ok := readPos(tMeta); ok && app > hw3 {
 				hw3 = app
 			}
+			_, lqAck, okq := readPos(lQMeta)
+			if !okq {
+				lqAck = -1
+			}
 			if _, ack, ok := readPos(tGroup); ok && ack != prevAck3 {
-				if ack > prevAck3 && ack > hw3 {
+				if ack > prevAck3 && ack > hw3 && ack > lqAck {
 					c.Violate("C08/acked-beyond-follower-append", "leader's acknowledged position for the second follower moved %d -> %d but that follower never appended beyond %d", prevAck3, ack, hw3)
 				}
 				prevAck3 = ack
@@ -955,6 +984,59 @@ func (H) Run(c *core.RunCtx) {
 					return
 				}
 				cl.written[before+1] = m
+			}
+		case "join":
+			if cl.third != 3 || !l.alive || l.part == nil {
+				continue
+			}
+			cl.joining = true
+			sim.Fault("follower-joins")
+			if op.A == 0 {
+				if err := cl.openWriteStream(l); err != nil {
+					c.Anomaly("BuildReplicaForLeader: %v", err)
+					return
+				}
+				break
+			}
+			// the leader dies while it builds the replica of the newcomer: at the A-th yield point inside the queue /
+			// page packages (creation of the consumer group and its meta page), or not at all when there are fewer
+			prev := sim.OnYield
+			n, killed, done := int64(0), false, false
+			inc := l.inc
+			sim.OnYield = func(label string) {
+				if killed || done || sim.CurInc() != inc || sim.CurTaskName() != "join" {
+					if prev != nil {
+						prev(label)
+					}
+					return
+				}
+				if strings.HasPrefix(label, "queue.") || strings.HasPrefix(label, "page.") {
+					n++
+					if n == op.A {
+						killed = true
+						sim.Fault("leader-dies-inside-join")
+						sim.Event("leader dies at %s", label)
+						sim.Kill(inc)
+					}
+				}
+			}
+			sim.SpawnIn(inc, "join", func() {
+				_ = cl.openWriteStream(l)
+				done = true
+			})
+			sim.Await(func() bool { return killed || done })
+			sim.OnYield = prev
+			if killed {
+				l.alive = false
+				if l.cancel != nil {
+					l.cancel()
+				}
+				l.part = nil
+				simrt.Sleep(5 * time.Millisecond)
+				if err := cl.startNode(leaderID); err != nil {
+					c.Violate("C08/leader-restart-failed", "leader could not recover its log: %v", err)
+					return
+				}
 			}
 		case "wait":
 			simrt.Sleep(time.Duration(op.A) * time.Millisecond)
@@ -1085,6 +1167,7 @@ func (H) Run(c *core.RunCtx) {
 	}
 	// an append after the last fault must reach the follower, at the leader's position
 	l := cl.nodes[leaderID]
+	cl.joining = true
 	if err := cl.openWriteStream(l); err != nil {
 		c.Anomaly("BuildReplicaForLeader: %v", err)
 		return
@@ -1128,7 +1211,7 @@ func (cl *cluster) awaitCaughtUp(quiet bool) bool {
 		la, _, ok1 = readPos(lMeta)
 		fa, _, ok2 = readPos(fMeta)
 		third := true
-		if cl.third == 2 {
+		if (cl.third == 2 || cl.third == 3) && cl.joined {
 			ta, _, ok3 := readPos(filepath.Join(partDir(cl.nodes[thirdID].dir), "meta", "0.bat"))
 			if !ok3 {
 				ta = -1
@@ -1158,7 +1241,7 @@ func (cl *cluster) awaitCaughtUp(quiet bool) bool {
 	if r, ok := rs[followerID]; ok {
 		state = fmt.Sprintf("replica=%d ack=%d append=%d state=%v live=%v tasks=%s", r.ReplicaIndex(), r.AckIndex(), r.AppendIndex(), r.State(), cl.live, cl.sim.TaskDump())
 	}
-	if fa == la && cl.third == 2 {
+	if fa == la && cl.third >= 2 {
 		if r, ok := rs[thirdID]; ok {
 			state = fmt.Sprintf("replica=%d ack=%d append=%d state=%v", r.ReplicaIndex(), r.AckIndex(), r.AppendIndex(), r.State())
 		}
